@@ -28,3 +28,39 @@ def mc(c, module, cfg, **kw):
         c.notes.append("DEV: exhaustive model run skipped (VERIF_DEV_SKIP_MC)")
         return None
     return c.mc(module, cfg, **kw)
+
+
+class _Combined:
+    pass
+
+
+def validate_table(c, module, cfg, trace_path, chunks=4, min_chunk=400, timeout=3000):
+    """Validate a table-style trace (independent lines) with several TLC processes in parallel.
+    Returns an object with .bad (line numbers of the whole file), .stuck_at, .out, .stats."""
+    from concurrent.futures import ThreadPoolExecutor
+    lines = open(trace_path).read().splitlines()
+    n = len(lines)
+    k = max(1, min(chunks, n // min_chunk))
+    size = (n + k - 1) // k if n else 1
+    parts = []
+    for i in range(k):
+        seg = lines[i * size:(i + 1) * size]
+        if not seg:
+            continue
+        p = os.path.join(c.scratch, "chunk-%s-%d.ndjson" % (module, i))
+        with open(p, "w") as f:
+            f.write("\n".join(seg) + "\n")
+        parts.append((i * size, p))
+    with ThreadPoolExecutor(max_workers=len(parts) or 1) as ex:
+        rs = list(ex.map(lambda a: c.validate(module, cfg, a[1], timeout=timeout), parts))
+    r = _Combined()
+    r.bad, r.out, r.stuck_at, r.stats = [], "", None, {}
+    for (off, _), x in zip(parts, rs):
+        r.bad += [(l + off, key) for (l, key) in x.bad]
+        r.out += x.out
+        if x.stuck_at is not None and r.stuck_at is None and not x.bad:
+            r.stuck_at = x.stuck_at + off
+        for a, b in x.stats.items():
+            r.stats[a] = r.stats.get(a, 0) + b
+    r.bad.sort()
+    return r
